@@ -884,6 +884,186 @@ def gen_anchors():
 GENERATORS = {"grid": gen_grid, "anchors": gen_anchors}
 
 
+# ---------------------------------------------------------------------------------------------
+# orbit arms: which images each OrbitPolicy examines (dim2/orbits.rs, dim3/orbits.rs) and which images the 3-D
+# identifier walks push (dim3/basic_ops.rs)
+# ---------------------------------------------------------------------------------------------
+
+ORB2_RS = os.environ.get("GEN_LEAN_ORB2_RS", "/repo/honeycomb-core/src/cmap/dim2/orbits.rs")
+ORB3_RS = os.environ.get("GEN_LEAN_ORB3_RS", "/repo/honeycomb-core/src/cmap/dim3/orbits.rs")
+OPS3_RS = os.environ.get("GEN_LEAN_OPS3_RS", "/repo/honeycomb-core/src/cmap/dim3/basic_ops.rs")
+ORBIT_OUT = os.path.join(os.path.dirname(os.path.dirname(os.path.abspath(__file__))), "lean", "Honeycomb", "Gen", "OrbitArms.lean")
+
+
+def block_after(src, start, where):
+    """text between the braces opening at or after `start`; returns (text, index after the closing brace)"""
+    i = src.index("{", start)
+    depth, j = 0, i
+    while j < len(src):
+        if src[j] == "{":
+            depth += 1
+        elif src[j] == "}":
+            depth -= 1
+            if depth == 0:
+                return src[i + 1:j], j + 1
+        j += 1
+    raise Shape(f"{where}: unbalanced braces")
+
+
+def split_depth0(s, sep):
+    out, depth, cur = [], 0, ""
+    for ch in s:
+        if ch in "([{":
+            depth += 1
+        elif ch in ")]}":
+            depth -= 1
+        if ch == sep and depth == 0:
+            out.append(cur)
+            cur = ""
+        else:
+            cur += ch
+    out.append(cur)
+    return [x.strip() for x in out if x.strip()]
+
+
+def beta_expr(e, env, where):
+    """symbolic value of an image expression: the tuple of beta indices applied to the start dart, first applied first"""
+    e = e.strip()
+    if e.endswith("?"):
+        e = e[:-1].strip()
+    if re.fullmatch(r"[A-Za-z_][A-Za-z_0-9]*", e):
+        need(e in env, f"{where}: unknown name {e!r}")
+        return env[e]
+    m = re.fullmatch(r"self\s*\.\s*beta(_transac)?\s*::\s*<\s*(\d)\s*>\s*\((.*)\)", e, flags=re.S)
+    need(m, f"{where}: image expression not recognised: {e!r}")
+    args = split_depth0(m.group(3), ",")
+    if m.group(1):
+        need(len(args) == 2 and re.fullmatch(r"t|trans", args[0]), f"{where}: beta_transac arguments not recognised: {e!r}")
+        inner = args[1]
+    else:
+        need(len(args) == 1, f"{where}: beta arguments not recognised: {e!r}")
+        inner = args[0]
+    return beta_expr(inner, env, where) + (int(m.group(2)),)
+
+
+def images_of_block(block, start_name, where):
+    """straight-line symbolic evaluation of a block of `let`s and sinks (`check(E)`, `pending.push_back(E)`, an array literal
+    fed to `.into_iter().for_each(check)`, `for x in [..] { sink(x); }`): the images handed to the sink, in order"""
+    env = {start_name: ()}
+    sinks = []
+    txt = " ".join(block.split())
+    # `for x in [ ... ] { sink(x); }`  ->  the array fed to the sink
+    txt = re.sub(r"for (\w+) in (\[[^\]]*\]) \{ (check|pending\s*\.\s*push_back)\(\1\); \}", r"\2.into_iter().for_each(\3);", txt)
+    for st in split_depth0(txt, ";"):
+        m = re.fullmatch(r"let \(([^)]*)\) = \((.*)\)", st, flags=re.S)
+        if m:
+            names = [x.strip() for x in m.group(1).split(",") if x.strip()]
+            vals = split_depth0(m.group(2), ",")
+            need(len(names) == len(vals), f"{where}: tuple let arity: {st!r}")
+            new = [beta_expr(v, env, where) for v in vals]
+            env.update(dict(zip(names, new)))
+            continue
+        m = re.fullmatch(r"let (\w+) = (.*)", st, flags=re.S)
+        if m:
+            env[m.group(1)] = beta_expr(m.group(2), env, where)
+            continue
+        m = re.fullmatch(r"(?:check|pending\s*\.\s*push_back)\((.*)\)", st, flags=re.S)
+        if m:
+            sinks.append(beta_expr(m.group(1), env, where))
+            continue
+        m = re.fullmatch(r"\[(.*)\]\s*\.into_iter\(\)\s*\.for_each\((?:check|pending\s*\.\s*push_back)\)", st, flags=re.S)
+        if m:
+            sinks += [beta_expr(v, env, where) for v in split_depth0(m.group(1), ",")]
+            continue
+        if re.fullmatch(r"min = min\s*\.\s*min\(d\)", st):
+            continue
+        raise Shape(f"{where}: statement not recognised: {st!r}")
+    return sinks
+
+
+POLICIES = ["Vertex", "VertexLinear", "Edge", "Face", "FaceLinear", "Volume", "VolumeLinear"]
+
+
+def orbit_arms(src, fname, where):
+    body = fn_body(src, fname)
+    m = re.search(r"match\s+opolicy\s*\{", body)
+    need(m, f"{where}: `match opolicy` not found")
+    mbody, _ = block_after(body, m.start(), where)
+    arms, pos, seen = [], 0, set()
+    while True:
+        h = re.compile(r"\s*((?:OrbitPolicy::\w+(?:\([^)]*\))?\s*\|?\s*)+)=>\s*").match(mbody, pos)
+        if not h:
+            need(not mbody[pos:].strip(), f"{where}: text after the last arm not recognised: {mbody[pos:pos + 60]!r}")
+            break
+        blk, pos = block_after(mbody, h.end() - 1, where) if mbody[h.end():].lstrip().startswith("{") or mbody[h.end() - 1] == "{" else (None, None)
+        need(blk is not None, f"{where}: arm without a block")
+        names = re.findall(r"OrbitPolicy::(\w+)", h.group(1))
+        for n in names:
+            need(n not in seen, f"{where}: policy {n} matched twice")
+            seen.add(n)
+        pos = re.compile(r"\s*,?").match(mbody, pos).end()
+        if names == ["Custom"]:
+            need(re.search(r"for beta_id in beta_slice", blk) and re.search(r"beta_rt(_transac)?\(", blk) and "check(im)" in blk.replace(" ", ""),
+                 f"{where}: the Custom arm is not the loop over the slice")
+            continue
+        if "unimplemented!" in blk:
+            need(set(names) <= {"Volume", "VolumeLinear"}, f"{where}: unexpected unimplemented arm {names}")
+            continue
+        ims = images_of_block(blk, "d", f"{where} arm {'|'.join(names)}")
+        for n in names:
+            arms.append((n, ims))
+    need(seen >= set(POLICIES) | {"Custom"}, f"{where}: arms missing: {sorted(set(POLICIES) | {'Custom'} - seen)}")
+    return arms
+
+
+def id_pushes(src, fname, where):
+    body = fn_body(src, fname)
+    m = re.search(r"if\s+marked\s*\.\s*insert\(d\)\s*\{", body)
+    need(m, f"{where}: `if marked.insert(d)` not found")
+    blk, _ = block_after(body, m.start(), where)
+    return images_of_block(blk, "d", where)
+
+
+def lean_paths(ps):
+    return "[" + ", ".join("[" + ", ".join(str(i) for i in p) + "]" for p in ps) + "]"
+
+
+def gen_orbits():
+    s2 = strip_comments(open(ORB2_RS).read())
+    s3 = strip_comments(open(ORB3_RS).read())
+    o3 = strip_comments(open(OPS3_RS).read())
+    tabs = [("orbitArms2", "`CMap2::orbit_transac`", orbit_arms(s2, "orbit_transac", "dim2/orbits.rs orbit_transac")),
+            ("orbitArms2Plain", "`CMap2::orbit`", orbit_arms(s2, "orbit", "dim2/orbits.rs orbit")),
+            ("orbitArms3", "`CMap3::orbit_transac`", orbit_arms(s3, "orbit_transac", "dim3/orbits.rs orbit_transac")),
+            ("orbitArms3Plain", "`CMap3::orbit`", orbit_arms(s3, "orbit", "dim3/orbits.rs orbit"))]
+    ids = [(f, id_pushes(o3, f, f"dim3/basic_ops.rs {f}")) for f in ("vertex_id_transac", "edge_id_transac", "volume_id_transac")]
+    out = ["/-\n  GENERATED by /verif/tools/gen_lean.py from\n  /repo/honeycomb-core/src/cmap/dim2/orbits.rs, dim3/orbits.rs, dim3/basic_ops.rs — DO NOT EDIT.\n"
+           "  Regenerated by tools/check.py before every build of a module that imports it.\n\n"
+           "  Per orbit policy: the images the arm hands to `check`, in order, each as the list of beta indices applied to the\n"
+           "  current dart, FIRST APPLIED FIRST (`self.beta::<1>(self.beta::<2>(d))` is `[2, 1]`), obtained by evaluating the arm's\n"
+           "  `let`s symbolically (so the order of the reads does not matter, the composition does).  `Custom` (a loop over the\n"
+           "  slice) and the `unimplemented!` volume arms of the 2-D functions are recognised and not listed.\n"
+           "  `idPushes3`: the images pushed by the 3-D identifier walks.  Props/C03Gen.lean proves that the hand-written model\n"
+           "  (`g2`, `g3`, `Cell3.g3v`, the generators of `edgeId3` / `volumeId3`) examines exactly these images.\n-/\n",
+           "namespace HC.Gen\n"]
+    for name, doc, arms in tabs:
+        out.append(f"/-- arms of {doc}: (policy code, images); codes: " + ", ".join(f"{i} = {n}" for i, n in enumerate(POLICIES)) +
+                   f" -/\ndef {name} : List (Nat × List (List Nat)) := [\n" +
+                   ",\n".join(f'  ({POLICIES.index(n)}, {lean_paths(ps)})' for n, ps in arms) + "]\n")
+    out.append("/-- images pushed by the 3-D identifier walks, in push order: 0 = vertex_id_transac, 1 = edge_id_transac, "
+               "2 = volume_id_transac -/\ndef idPushes3 : List (Nat × List (List Nat)) := [\n" +
+               ",\n".join(f'  ({k}, {lean_paths(ps)})' for k, (f, ps) in enumerate(ids)) + "]\n")
+    out.append("end HC.Gen\n")
+    txt = "\n".join(out)
+    os.makedirs(os.path.dirname(ORBIT_OUT), exist_ok=True)
+    if not os.path.exists(ORBIT_OUT) or open(ORBIT_OUT).read() != txt:
+        open(ORBIT_OUT, "w").write(txt)
+    return f"gen_lean: orbits ok ({sum(len(a) for _, _, a in tabs)} arms, {len(ids)} identifier walks)"
+
+
+GENERATORS["orbits"] = gen_orbits
+
+
 def run(names):
     """returns (ok, log)"""
     logs, ok = [], True
